@@ -216,7 +216,11 @@ func (tr *tokenReader) nextIdent(firstRune rune) bool {
 
 func (tr *tokenReader) skipFollowingWhitespace() {
 	for {
-		b, _ := tr.readByte()
+		b, err := tr.readByte()
+		if err != nil {
+			// nothing was read, so there is nothing to unread
+			return
+		}
 		switch b {
 		case '\n':
 			tr.loc.incLine()
